@@ -4,7 +4,14 @@
 set -u
 P=$1
 cd /verif
-git merge --no-edit -q w/$P || { echo "MERGE CONFLICT"; exit 1; }
+if ! git merge --no-edit -q w/$P; then
+  # conflicts in evidence files only (both sides re-ran the check): take the branch's, it is
+  # rewritten below anyway
+  BAD=$(git diff --name-only --diff-filter=U | grep -v '^evidence/' || true)
+  if [ -n "$BAD" ]; then echo "MERGE CONFLICT in: $BAD"; exit 1; fi
+  for f in $(git diff --name-only --diff-filter=U); do git checkout --theirs -- "$f"; git add "$f"; done
+  git commit -q --no-edit
+fi
 python3 tools/manifest_gen.py
 bash tools/setup.sh > .build/setup.$P.log 2>&1 || { echo "SETUP FAILED"; tail -20 .build/setup.$P.log; exit 1; }
 if [ -f tools/checks/$(echo $P | tr A-Z a-z).py ]; then
